@@ -5,7 +5,7 @@ Exit code contract of every check:
   1  a reproduced violation not listed in known_findings.json
   2  the machinery itself failed (build error, TLC timeout, dead driver): never a verdict
 """
-import json, os, re, shutil, subprocess, sys, tempfile, time, atexit, hashlib
+import tempfile, json, os, re, shutil, subprocess, sys, tempfile, time, atexit, hashlib
 
 VERIF = os.path.dirname(os.path.dirname(os.path.abspath(__file__)))
 REPO = os.environ.get("VERIF_REPO", "/repo")
@@ -578,7 +578,8 @@ def validate_traces(module, cfg, traces, fields, timeout=1200):
     {"k": "reset"} line is appended after each trace, the file is given to TLC through env TRACEFILE, and acceptance
     is `diameter - 1 = Len(Trace)` (POSTCONDITION in the cfg).  Returns (ok, info): info has lines, states, and on
     rejection the tag/index/event of the first line TLC could not match and the longest matched prefix length."""
-    path = os.path.join(scratch(), "trace-%d.ndjson" % len(os.listdir(scratch())))
+    fd, path = tempfile.mkstemp(prefix="trace-", suffix=".ndjson", dir=scratch())     # unique also across threads
+    os.close(fd)
     index = []  # line number (1-based) -> (trace idx, event idx)
     with open(path, "w") as f:
         for ti, (tag, evs) in enumerate(traces):
